@@ -121,6 +121,40 @@ def cancel_program(rng):
     return ops
 
 
+def shared_program(rng):
+    """bundles in which two or three policies hold the SAME Asset object (the driver builds `a = Asset(..);
+    MultiAsset({p1: a, p2: a})` for equal literals when the case carries share=True), combined by the operators that never
+    edit an Asset of their operands in place (+, -, union, +=, filter, comparisons): each policy must behave as if it had its
+    own copy.  (Item assignment / Asset += on such a bundle really edit both policies: not generated here.)"""
+    pols = policies(rng, rng.randint(2, 4))
+    names = rng.sample(NAMES, rng.randint(1, 3))
+    qty = [1, 2, 3, 5, -1, -2, 2**64]
+
+    def bundle():
+        base = [[n.hex(), rng.choice(qty)] for n in rng.sample(names, rng.randint(1, len(names)))]
+        lit = []
+        for p in rng.sample(pols, rng.randint(2, len(pols))):
+            lit.append([p.hex(), [list(x) for x in base] if rng.random() < 0.8 else
+                        [[n.hex(), rng.choice(qty)] for n in rng.sample(names, rng.randint(1, len(names)))]])
+        return lit
+    ops = [['new', rng.choice([0, 5, 1000000]), bundle()] for _ in range(rng.randint(2, 3))]
+    nv = len(ops)
+    for _ in range(rng.randint(3, 9)):
+        k = rng.choice(['add', 'add', 'add', 'sub', 'union', 'iadd', 'maiadd', 'eq', 'le', 'ge', 'lt', 'male', 'mage', 'filter', 'alias', 'share'])
+        a, b = rng.randrange(nv), rng.randrange(nv)
+        if k in ('add', 'sub', 'union'):
+            ops.append([k, a, b]); nv += 1
+        elif k == 'filter':
+            ops.append([k, a, rand_crit(rng, pols)]); nv += 1
+        elif k == 'alias':
+            ops.append([k, a]); nv += 1
+        elif k == 'share':
+            ops.append([k, a, 7]); nv += 1
+        else:
+            ops.append([k, a, b])
+    return ops
+
+
 def history_program(rng):
     """Two or three different histories that reach the same target content (C04)."""
     pols = policies(rng, rng.randint(1, 6))
